@@ -336,6 +336,9 @@ pub struct EOpts {
     /// the dispatch was cut short by a (caught) panic: run counts are not judged, and ordering /
     /// isolation are judged on the windows that exist (an unwound window is open to the end)
     pub partial: bool,
+    /// how often the top-level thread-local systems are expected to run in this trace
+    /// (None = once per top-level dispatch; async: once per `wait`)
+    pub tl_mult: Option<usize>,
 }
 
 #[derive(Clone, Debug, Default)]
@@ -509,8 +512,9 @@ fn check_level(
     let expect_tl = inner || opts.expect_tl;
     let tl_wins: Vec<&Vec<Win>> = tls.iter().map(|t| w.by_uid.get(&t.uid).unwrap_or(&empty)).collect();
     let mut tl_ok = ok;
+    let tl_n = if inner { mult } else { opts.tl_mult.unwrap_or(mult) };
     for (i, t) in tls.iter().enumerate() {
-        let want = if expect_tl { mult } else { 0 };
+        let want = if expect_tl { tl_n } else { 0 };
         if tl_wins[i].len() != want {
             out.push(Finding::new(
                 &["C04", "C12"],
@@ -621,10 +625,13 @@ fn check_level(
     }
 
     // ---- thread-local systems ----
-    if tl_ok && expect_tl && !tls.is_empty() {
-        for j in 0..mult {
+    if tl_ok && expect_tl && !tls.is_empty() && tl_n <= mult {
+        for j in 0..tl_n {
             st.tl_windows += tls.len();
-            let all_end = (0..n).map(|i| wins[i][j].rel).max().unwrap_or(0);
+            // with fewer thread-local runs than dispatches (async: several dispatches, one wait)
+            // the runs belong to the last epochs
+            let ej = mult - tl_n + j;
+            let all_end = (0..n).map(|i| wins[i][ej].rel).max().unwrap_or(0);
             let mut prev_rel = 0usize;
             for (i, t) in tls.iter().enumerate() {
                 let x = &tl_wins[i][j];
